@@ -122,6 +122,23 @@ func dateNum(r *rand.Rand, long bool) string {
 	return fmt.Sprintf("%04d%02d%02d", y, mo, d) + hms
 }
 
+// EncodingNums are the boundaries of text encodings and of the code-point space: UTF-8 length steps (127/128,
+// 2047/2048, 65535/65536), the surrogate block (55296..57343) with its neighbours, U+FFFD / U+FEFF / U+FFFE, the last
+// code point; a component packed as a rune or a byte sequence breaks at these and nowhere else.
+var EncodingNums = []string{"127", "128", "255", "256", "2047", "2048", "55295", "55296", "55297", "56012", "56319", "56320", "57343", "57344",
+	"65279", "65533", "65534", "65535", "65536", "1114111", "1114112", "60000", "57000"}
+
+// Pow2Family returns 2^k-1, 2^k, 2^k+1 for six consecutive exponents starting at a random k in 1..58.
+func Pow2Family(r *rand.Rand) []string {
+	k := 1 + r.IntN(58)
+	var out []string
+	for e := k; e < k+6; e++ {
+		p := uint64(1) << e
+		out = append(out, strconv.FormatUint(p-1, 10), strconv.FormatUint(p, 10), strconv.FormatUint(p+1, 10))
+	}
+	return out
+}
+
 // LogNum draws a number whose BIT LENGTH is uniform in 1..maxBits (so every power-of-two band, e.g. [2^21, 2^22), is
 // as likely as any other), either random inside the band or on its edges. Packed sort keys, bit-sliced fields and
 // fixed-width slots fail in one band only.
@@ -154,6 +171,8 @@ func Num(r *rand.Rand, o NumOpts) string {
 			return LogNum(r, 64)
 		}
 		return LogNum(r, 31)
+	case 5:
+		return EncodingNums[r.IntN(len(EncodingNums))]
 	}
 	k := r.IntN(100)
 	if k >= 96 && len(dictNums) > 0 { // a number literal of the source (or a neighbour / power derived from it)
@@ -964,6 +983,23 @@ func Cluster(eco string, r *rand.Rand) []string {
 	if chance(r, 1, 6) {
 		out = append(out, Dense(eco, base, r)...)
 	}
+	// power-of-two family: one component runs through 2^k-1, 2^k, 2^k+1 for six consecutive k (every k in 1..63 is
+	// reached within a few dozen clusters); encoding family: the same for the boundaries of UTF-8 and the code-point space
+	if chance(r, 1, 6) {
+		i := r.IntN(len(c))
+		fam := Pow2Family(r)
+		if chance(r, 1, 3) {
+			fam = EncodingNums
+		}
+		for _, n := range fam {
+			if len(n) > 18 && !no.Big {
+				continue
+			}
+			d := append([]string{}, c...)
+			d[i] = n
+			out = append(out, strings.Join(d, "."))
+		}
+	}
 	// hash-collision family: ordinary versions whose texts collide under a common 32-bit hash (collide.go)
 	if chance(r, 1, 10) {
 		out = append(out, CollisionFamily(eco, r, 2)...)
@@ -1069,6 +1105,25 @@ func Cluster(eco string, r *rand.Rand) []string {
 				sep := pick(r, "-", "+", "~", "_", ".", "-r", "_p", ".post", "-rc")
 				out = append(out, base+sep+q, base+sep+n, base+sep+decInc(n))
 			}
+		}
+	}
+	// infix family: two members (for composer also branch names) joined by a blank-delimited connective - the fixed ones
+	// and short words that are literals of this ecosystem's sources ("dev-feature as 2.0.0", "1.0 - 2.0", "1 to 2").
+	// Parsers that accept free text accept these; a grammar that starts to give the connective a meaning does so here
+	if chance(r, 1, 6) {
+		heads := append([]string{}, out[:min(len(out), 12)]...)
+		if eco == "composer" {
+			heads = append(heads, "dev-main", "dev-feature", "dev-master", "dev-fix", "dev-main", "dev-feature")
+			out = append(out, "dev-main", "dev-feature", "dev-fix")
+		}
+		words := []string{"as", "and", "or", "to", "@", "-", "as"}
+		for k := 0; k < 3; k++ {
+			if wd := EcoWord(eco, r); len(wd) <= 6 {
+				words = append(words, strings.ToLower(wd))
+			}
+		}
+		for k := 0; k < 10; k++ {
+			out = append(out, heads[r.IntN(len(heads))]+" "+words[r.IntN(len(words))]+" "+out[r.IntN(min(len(out), 20))])
 		}
 	}
 	// maven: the unique snapshots of this base as a repository lists them, next to the literal -SNAPSHOT
